@@ -356,6 +356,34 @@ pub fn ed25519_base_noclamp(s: &[u8; 32]) -> Option<[u8; 32]> {
     }
 }
 
+/// p + q on edwards25519 (any two points on the curve, small-order ones included); None if an input does not decode.
+pub fn ed25519_add(p: &[u8; 32], q: &[u8; 32]) -> Option<[u8; 32]> {
+    let mut r = [0u8; 32];
+    let rc = unsafe { ffi::crypto_core_ed25519_add(r.as_mut_ptr(), p.as_ptr(), q.as_ptr()) };
+    if rc == 0 {
+        Some(r)
+    } else {
+        None
+    }
+}
+
+/// 64-byte little-endian integer mod L.
+pub fn ed25519_scalar_reduce(wide: &[u8; 64]) -> [u8; 32] {
+    let mut r = [0u8; 32];
+    unsafe { ffi::crypto_core_ed25519_scalar_reduce(r.as_mut_ptr(), wide.as_ptr()) };
+    r
+}
+
+/// k * a + r mod L
+pub fn ed25519_scalar_muladd(k: &[u8; 32], a: &[u8; 32], r: &[u8; 32]) -> [u8; 32] {
+    let (mut ka, mut s) = ([0u8; 32], [0u8; 32]);
+    unsafe {
+        ffi::crypto_core_ed25519_scalar_mul(ka.as_mut_ptr(), k.as_ptr(), a.as_ptr());
+        ffi::crypto_core_ed25519_scalar_add(s.as_mut_ptr(), ka.as_ptr(), r.as_ptr());
+    }
+    s
+}
+
 pub fn shorthash(m: &[u8], k: &[u8; 16]) -> [u8; 8] {
     let mut out = [0u8; 8];
     unsafe { ffi::crypto_shorthash(out.as_mut_ptr(), m.as_ptr(), ull(m.len()), k.as_ptr()) };
@@ -404,6 +432,19 @@ pub fn pwhash(outlen: usize, pw: &[u8], salt: &[u8; 16], ops: u64, mem: usize, a
     } else {
         None
     }
+}
+
+/// libsodium's verdict on an encoded Argon2 hash (`$argon2id$v=19$m=..,t=..,p=1$salt$hash`).  The decoder takes salts
+/// and hashes of ANY length (>= 8 / >= 16 bytes) and recomputes Argon2 over the decoded salt, so this is an
+/// independent Argon2 for parameter sets crypto_pwhash itself cannot express (salt length != 16).
+pub fn pwhash_str_verify(encoded: &str, pw: &[u8]) -> bool {
+    // NUL-terminated, at least crypto_pwhash_STRBYTES long (the prototype takes a char[128]; only strlen is used)
+    let mut z: Vec<libc::c_char> = encoded.bytes().map(|b| b as libc::c_char).collect();
+    z.push(0);
+    while z.len() < 128 {
+        z.push(0);
+    }
+    unsafe { ffi::crypto_pwhash_str_verify(z.as_ptr(), pw.as_ptr() as *const libc::c_char, ull(pw.len())) == 0 }
 }
 
 // ----------------------------------------------------------------- kdf ----
